@@ -96,6 +96,9 @@ def excluded(src: str):
     if re.search(r'(?m)^[ \t]*;', src):
         return 'semicolon_own_line'
 
+    if re.search(r'\\\n[ \t]*\n', src):
+        return 'continuation_onto_blank_line'  # 'i \\' + empty line: a statement put after it is joined to the dangling line (known finding)
+
     return None
 
 
